@@ -276,3 +276,158 @@ def feasible(path):
 
 def feasible_paths(fn):
     return [p for p in enumerate_paths(fn) if feasible(p)]
+
+
+# ------------------------------------------------------------------------------------------
+# per-iteration freshness of flags
+# ------------------------------------------------------------------------------------------
+
+def _key_of_target(t):
+    if isinstance(t, ast.Name):
+        return t.id
+    if isinstance(t, ast.Subscript) and isinstance(t.slice, ast.Constant) and isinstance(t.value, ast.Name):
+        return norm(t)
+    return None
+
+
+def _reads_of(node, keys):
+    out = []
+    for n in ast.walk(node):
+        if isinstance(n, ast.Name) and isinstance(n.ctx, ast.Load) and n.id in keys:
+            out.append((n.id, n))
+        elif isinstance(n, ast.Subscript) and isinstance(n.ctx, ast.Load) and isinstance(n.slice, ast.Constant) and norm(n) in keys:
+            out.append((norm(n), n))
+    return out
+
+
+def flag_keys(fn):
+    """Names / constant-key dict slots that are assigned True, False or None somewhere inside a loop of `fn`."""
+    keys = set()
+    for lp in ast.walk(fn):
+        if isinstance(lp, (ast.For, ast.While)):
+            for n in ast.walk(lp):
+                if isinstance(n, ast.Assign) and isinstance(n.value, ast.Constant) and (isinstance(n.value.value, bool) or n.value.value is None):
+                    for t in n.targets:
+                        k = _key_of_target(t)
+                        if k:
+                            keys.add(k)
+    return keys
+
+
+def _loops_with_parents(fn):
+    out = {}
+
+    def rec(node, chain):
+        for ch in ast.iter_child_nodes(node):
+            if isinstance(ch, (ast.FunctionDef, ast.AsyncFunctionDef, ast.ClassDef, ast.Lambda)):
+                continue
+            if isinstance(ch, (ast.For, ast.While)):
+                out[id(ch)] = (ch, chain)
+                rec(ch, chain + [ch])
+            else:
+                rec(ch, chain)
+    rec(fn, [])
+    return out
+
+
+def candidate_loop(fn):
+    """Innermost loop that contains a `return <value>`: one iteration of it evaluates one candidate."""
+    loops = _loops_with_parents(fn)
+    best = None
+    for lid, (lp, chain) in loops.items():
+        if any(isinstance(n, ast.Return) and n.value is not None and not (isinstance(n.value, ast.Constant) and n.value.value is None)
+               for n in walk_loop_body(lp)):
+            if best is None or len(chain) > len(loops[id(best)][1]):
+                best = lp
+    return best
+
+
+def walk_loop_body(lp):
+    """Nodes of the loop body that are not inside a nested loop."""
+    stack = list(lp.body) + list(lp.orelse)
+    while stack:
+        n = stack.pop()
+        yield n
+        for ch in ast.iter_child_nodes(n):
+            if not isinstance(ch, (ast.For, ast.While, ast.FunctionDef, ast.ClassDef, ast.Lambda)):
+                stack.append(ch)
+
+
+def stale_reads(fn, keys=None):
+    """Reads of per-candidate flags that can see the value left by an earlier candidate.
+
+    Lc = candidate_loop(fn).  A read R of flag K inside Lc is *fresh* with respect to an enclosing loop L (L = Lc or nested in
+    Lc) when on every feasible path through one iteration of L a store to K precedes R.  R must be fresh with respect to at
+    least one such L; otherwise the value read was stored while an earlier candidate (an earlier iteration of Lc, or of a loop
+    around it) was evaluated.  Returns ([(key, Lc, read node, path)], number of (flag, read) pairs examined)."""
+    keys = set(keys) if keys is not None else flag_keys(fn)
+    Lc = candidate_loop(fn)
+    if Lc is None:
+        return [], 0
+    loops = _loops_with_parents(fn)
+    inner = [lp for lp, chain in loops.values() if lp is Lc or any(c is Lc for c in chain)]
+    stored_in = {}
+    for lp in inner:
+        ks = set()
+        for n in ast.walk(lp):
+            if isinstance(n, (ast.Assign, ast.AugAssign)):
+                for t in (n.targets if isinstance(n, ast.Assign) else [n.target]):
+                    for x in ([t] if not isinstance(t, (ast.Tuple, ast.List)) else t.elts):
+                        k = _key_of_target(x)
+                        if k in keys:
+                            ks.add(k)
+        stored_in[id(lp)] = ks
+    tracked = stored_in[id(Lc)]
+    # per loop: reads that are NOT fresh w.r.t. that loop, and all reads seen
+    unfresh = {}
+    allreads = {}
+    for lp in inner:
+        synth = ast.FunctionDef(name="<iteration>", args=ast.arguments(posonlyargs=[], args=[], kwonlyargs=[], kw_defaults=[], defaults=[]),
+                                body=lp.body, decorator_list=[], lineno=lp.lineno, col_offset=0)
+        for p in feasible_paths(synth):
+            have = set()
+            for e in p.ev:
+                if e[0] == "test":
+                    rd, st_targets = _reads_of(e[1], tracked), []
+                elif e[0] == "stmt":
+                    st = e[1]
+                    if isinstance(st, (ast.For, ast.While)):
+                        rd = _reads_of(st.iter if isinstance(st, ast.For) else st.test, tracked)
+                        st_targets = [st.target] if isinstance(st, ast.For) else []
+                    elif isinstance(st, ast.Assign):
+                        rd = _reads_of(st.value, tracked)
+                        for t in st.targets:
+                            if isinstance(t, ast.Subscript):
+                                rd += _reads_of(t.slice, tracked)
+                        st_targets = st.targets
+                    elif isinstance(st, ast.AugAssign):
+                        rd = _reads_of(st.value, tracked)
+                        k = _key_of_target(st.target)
+                        if k in tracked:
+                            rd.append((k, st.target))
+                        st_targets = [st.target]
+                    elif isinstance(st, (ast.If, ast.With, ast.Try, ast.FunctionDef, ast.ClassDef)):
+                        rd, st_targets = [], []
+                    else:
+                        rd, st_targets = _reads_of(st, tracked), []
+                else:
+                    continue
+                for k, node in rd:
+                    allreads[(k, id(node))] = node
+                    if k not in have:
+                        unfresh.setdefault((k, id(node)), {})[id(lp)] = p
+                    else:
+                        unfresh.setdefault((k, id(node)), {})
+                for t in st_targets:
+                    for x in ([t] if not isinstance(t, (ast.Tuple, ast.List)) else t.elts):
+                        k = _key_of_target(x)
+                        if k in tracked:
+                            have.add(k)
+    # enclosing loops (within Lc) of each read
+    out = []
+    for (k, nid), node in allreads.items():
+        encl = [lp for lp in inner if any(n is node for n in ast.walk(lp))]
+        fresh_somewhere = any(id(lp) not in unfresh.get((k, nid), {}) for lp in encl)
+        if not fresh_somewhere:
+            out.append((k, Lc, node, unfresh[(k, nid)].get(id(Lc)) or list(unfresh[(k, nid)].values())[0]))
+    return out, len(allreads)
